@@ -12,7 +12,7 @@ import impl
 import c01_gen as G
 
 HEADER = ('From Coq Require Import List ZArith Bool.\n'
-          'From T4V Require Import C01.Model C01.Exec.\n'
+          'From T4V Require Import C01.Model C01.Printer C01.Exec.\n'
           'Import ListNotations.\nOpen Scope Z_scope.\n')
 
 
@@ -440,7 +440,7 @@ def check_deck(res, deck, text, rng, coq_cases, metas, args=()):
     if 'final' not in cap:
         return
     obs = ('ok', cap['cnt'], cap['before'], cap['sc'], cap['cc'],
-           cap['final'], file_)
+           cap['final'], file_, G.volu_lines(conv.text))
     coq_cases.append(G.coq_case(case, obs))
     metas.append((text, case, obs))
     if cap.get('cc'):
@@ -492,7 +492,7 @@ def replay_deck(inp):
             case = case_of_capture(cap)
             file_, why = G.file_table(conv.text)
             obs = ('ok', cap['cnt'], cap['before'], cap['sc'], cap['cc'],
-                   cap['final'], file_)
+                   cap['final'], file_, G.volu_lines(conv.text))
             model, out = common.coq_eval(HEADER,
                                          'run_case ' + G.coq_case(case, obs))
             print('implementation:', obs)
